@@ -12,7 +12,7 @@ import os
 import sys
 import zlib as _zlib
 
-REPO = os.environ.get('VERIF_REPO', '/repo')
+REPO = (os.environ.get('VERIF_REPO') or '/repo')
 if REPO not in sys.path:
     sys.path.insert(0, REPO)
 
